@@ -1628,6 +1628,13 @@ func (r *Raft) InstallSnapshot(
 		r.logger.Fatalf("failed to discard log entries: error = %v", err)
 	}
 
+	// The whole log has been replaced. A configuration that was taken from one of its entries
+	// and never committed exists nowhere any more: fall back to the committed configuration,
+	// as is done when such an entry is truncated.
+	if r.pendingConfigurationChange() && r.committedConfiguration != nil {
+		r.nextConfiguration(r.committedConfiguration)
+	}
+
 	// Update the configuration.
 	r.applyConfiguration(request.Configuration)
 
